@@ -284,6 +284,23 @@ func strEq(a, b Str) *Term {
 
 // valEq is Go's == on values of static type t.
 func (m *Machine) valEq(t types.Type, x, y Value) *Term {
+	// reflect.Value: the engine's RV against another one or against the zero value of the struct type
+	if rx, ok := x.(RV); ok {
+		switch ry := y.(type) {
+		case RV:
+			if rx.T == nil || ry.T == nil {
+				return Bool(rx.T == nil && ry.T == nil)
+			}
+			return Bool(rx.Addr != nil && rx.Addr == ry.Addr)
+		case Struct:
+			return Bool(rx.T == nil)
+		}
+	}
+	if ry, ok := y.(RV); ok {
+		if _, isStruct := x.(Struct); isStruct {
+			return Bool(ry.T == nil)
+		}
+	}
 	switch x := x.(type) {
 	case *Term:
 		return Eq(x, asTerm(y))
